@@ -62,6 +62,17 @@ int vsnprintf(char *buf, size_t z, const char *fmt, va_list ap)
 }
 #endif
 
+#if defined VERIF_CBMC
+/* the bytes written are not looked at by this harness, only how many: the buffered writer's
+ * memcpy keeps its bounds obligation and loses its content */
+void *c06_memcpy(void *dst, const void *src, size_t n)
+{
+	(void)src;
+	__CPROVER_assert(__CPROVER_OBJECT_SIZE(dst) - __CPROVER_POINTER_OFFSET(dst) >= n, "CHECK the buffered writer copies inside its buffer");
+	return dst;
+}
+#endif
+
 int openat(int dfd, const char *fn, int fl, ...)
 {
 	(void)dfd;
